@@ -1,0 +1,817 @@
+	.file	"test_errorset.c"
+	.text
+.Ltext0:
+	.file 0 "/repo/aldor/aldor/src" "test/test_errorset.c"
+	.section	.rodata
+.LC0:
+	.string	"testErrorSet1"
+	.text
+	.globl	errorSetTestSuite
+	.type	errorSetTestSuite, @function
+errorSetTestSuite:
+.LFB0:
+	.file 1 "test/test_errorset.c"
+	.loc 1 11 1
+	.cfi_startproc
+	pushq	%rbp
+	.cfi_def_cfa_offset 16
+	.cfi_offset 6, -16
+	movq	%rsp, %rbp
+	.cfi_def_cfa_register 6
+	.loc 1 12 2
+	leaq	testErrorSet1(%rip), %rax
+	movq	%rax, %rsi
+	leaq	.LC0(%rip), %rax
+	movq	%rax, %rdi
+	call	showTest@PLT
+	.loc 1 13 1
+	nop
+	popq	%rbp
+	.cfi_def_cfa 7, 8
+	ret
+	.cfi_endproc
+.LFE0:
+	.size	errorSetTestSuite, .-errorSetTestSuite
+	.section	.rodata
+.LC1:
+	.string	"OMG Ponies"
+.LC2:
+	.string	"1"
+.LC3:
+	.string	"2"
+.LC4:
+	.string	"3"
+.LC5:
+	.string	"not now"
+.LC6:
+	.string	"%s"
+.LC7:
+	.string	"4"
+.LC8:
+	.string	"ouch.  ouch.  ouch."
+.LC9:
+	.string	"5"
+	.text
+	.type	testErrorSet1, @function
+testErrorSet1:
+.LFB1:
+	.loc 1 17 1
+	.cfi_startproc
+	pushq	%rbp
+	.cfi_def_cfa_offset 16
+	.cfi_offset 6, -16
+	movq	%rsp, %rbp
+	.cfi_def_cfa_register 6
+	subq	$16, %rsp
+	.loc 1 18 9
+	leaq	.LC1(%rip), %rax
+	movq	%rax, -8(%rbp)
+	.loc 1 21 6
+	call	errorSetNew@PLT
+	movq	%rax, -16(%rbp)
+	.loc 1 22 2
+	movq	-16(%rbp), %rax
+	movq	%rax, %rdi
+	call	errorSetHasErrors@PLT
+	movl	%eax, %esi
+	leaq	.LC2(%rip), %rax
+	movq	%rax, %rdi
+	call	testFalse@PLT
+	.loc 1 24 2
+	movq	-8(%rbp), %rdx
+	movq	-16(%rbp), %rax
+	movq	%rdx, %rsi
+	movq	%rax, %rdi
+	call	errorSetAdd@PLT
+	.loc 1 25 2
+	movq	-16(%rbp), %rax
+	movq	%rax, %rdi
+	call	errorSetHasErrors@PLT
+	movl	%eax, %esi
+	leaq	.LC3(%rip), %rax
+	movq	%rax, %rdi
+	call	testTrue@PLT
+	.loc 1 27 43
+	movq	-16(%rbp), %rax
+	movq	%rax, %rdi
+	call	errorSetErrors@PLT
+	.loc 1 27 2
+	movq	(%rax), %rdx
+	movq	-8(%rbp), %rax
+	movq	%rax, %rsi
+	leaq	.LC4(%rip), %rax
+	movq	%rax, %rdi
+	call	testStringEqual@PLT
+	.loc 1 28 2
+	movq	-16(%rbp), %rax
+	movq	%rax, %rdi
+	call	errorSetFree@PLT
+	.loc 1 30 6
+	call	errorSetNew@PLT
+	movq	%rax, -16(%rbp)
+	.loc 1 31 2
+	movq	-16(%rbp), %rax
+	leaq	.LC5(%rip), %rdx
+	movq	%rdx, %rcx
+	leaq	.LC6(%rip), %rdx
+	movl	$1, %esi
+	movq	%rax, %rdi
+	movl	$0, %eax
+	call	errorSetPrintf@PLT
+	.loc 1 32 2
+	movq	-16(%rbp), %rax
+	movq	%rax, %rdi
+	call	errorSetHasErrors@PLT
+	movl	%eax, %esi
+	leaq	.LC7(%rip), %rax
+	movq	%rax, %rdi
+	call	testFalse@PLT
+	.loc 1 34 2
+	movq	-16(%rbp), %rax
+	leaq	.LC8(%rip), %rdx
+	movq	%rdx, %rcx
+	leaq	.LC6(%rip), %rdx
+	movl	$0, %esi
+	movq	%rax, %rdi
+	movl	$0, %eax
+	call	errorSetPrintf@PLT
+	.loc 1 35 2
+	movq	-16(%rbp), %rax
+	movq	%rax, %rdi
+	call	errorSetHasErrors@PLT
+	movl	%eax, %esi
+	leaq	.LC9(%rip), %rax
+	movq	%rax, %rdi
+	call	testTrue@PLT
+	.loc 1 36 2
+	movq	-16(%rbp), %rax
+	movq	%rax, %rdi
+	call	errorSetFree@PLT
+	.loc 1 37 1
+	nop
+	leave
+	.cfi_def_cfa 7, 8
+	ret
+	.cfi_endproc
+.LFE1:
+	.size	testErrorSet1, .-testErrorSet1
+.Letext0:
+	.file 2 "./cport.h"
+	.file 3 "./strops.h"
+	.file 4 "./errorset.h"
+	.file 5 "test/testlib.h"
+	.section	.debug_info,"",@progbits
+.Ldebug_info0:
+	.long	0x245
+	.value	0x5
+	.byte	0x1
+	.byte	0x8
+	.long	.Ldebug_abbrev0
+	.uleb128 0xa
+	.long	.LASF33
+	.byte	0xc
+	.long	.LASF0
+	.long	.LASF1
+	.quad	.Ltext0
+	.quad	.Letext0-.Ltext0
+	.long	.Ldebug_line0
+	.uleb128 0xb
+	.byte	0x4
+	.byte	0x5
+	.string	"int"
+	.uleb128 0x2
+	.byte	0x1
+	.byte	0x8
+	.long	.LASF2
+	.uleb128 0x2
+	.byte	0x2
+	.byte	0x7
+	.long	.LASF3
+	.uleb128 0x2
+	.byte	0x4
+	.byte	0x7
+	.long	.LASF4
+	.uleb128 0x2
+	.byte	0x8
+	.byte	0x7
+	.long	.LASF5
+	.uleb128 0x2
+	.byte	0x1
+	.byte	0x6
+	.long	.LASF6
+	.uleb128 0x2
+	.byte	0x2
+	.byte	0x5
+	.long	.LASF7
+	.uleb128 0x2
+	.byte	0x8
+	.byte	0x5
+	.long	.LASF8
+	.uleb128 0x4
+	.long	0x6b
+	.uleb128 0x2
+	.byte	0x1
+	.byte	0x6
+	.long	.LASF9
+	.uleb128 0x2
+	.byte	0x4
+	.byte	0x4
+	.long	.LASF10
+	.uleb128 0x2
+	.byte	0x8
+	.byte	0x4
+	.long	.LASF11
+	.uleb128 0x2
+	.byte	0x8
+	.byte	0x5
+	.long	.LASF12
+	.uleb128 0x7
+	.long	.LASF13
+	.value	0x156
+	.byte	0xd
+	.long	0x2e
+	.uleb128 0x7
+	.long	.LASF14
+	.value	0x16a
+	.byte	0xf
+	.long	0x66
+	.uleb128 0x8
+	.long	.LASF18
+	.byte	0x3
+	.byte	0x14
+	.long	0xc5
+	.uleb128 0x5
+	.long	.LASF15
+	.byte	0x3
+	.byte	0x14
+	.byte	0x28
+	.long	0x93
+	.byte	0
+	.uleb128 0x5
+	.long	.LASF16
+	.byte	0x3
+	.byte	0x14
+	.byte	0x46
+	.long	0xc5
+	.byte	0x8
+	.byte	0
+	.uleb128 0x4
+	.long	0x9f
+	.uleb128 0x9
+	.long	.LASF17
+	.byte	0x3
+	.byte	0x14
+	.byte	0x4f
+	.long	0xc5
+	.uleb128 0x8
+	.long	.LASF19
+	.byte	0x4
+	.byte	0x6
+	.long	0xfc
+	.uleb128 0x5
+	.long	.LASF20
+	.byte	0x4
+	.byte	0x7
+	.byte	0xd
+	.long	0xca
+	.byte	0
+	.uleb128 0x5
+	.long	.LASF21
+	.byte	0x4
+	.byte	0x8
+	.byte	0xd
+	.long	0xca
+	.byte	0x8
+	.byte	0
+	.uleb128 0x9
+	.long	.LASF22
+	.byte	0x4
+	.byte	0x9
+	.byte	0x4
+	.long	0x108
+	.uleb128 0x4
+	.long	0xd6
+	.uleb128 0x6
+	.long	.LASF25
+	.byte	0x13
+	.byte	0xd
+	.long	0x87
+	.long	0x12d
+	.uleb128 0x1
+	.long	0xfc
+	.uleb128 0x1
+	.long	0x87
+	.uleb128 0x1
+	.long	0x93
+	.uleb128 0xc
+	.byte	0
+	.uleb128 0x3
+	.long	.LASF23
+	.byte	0x4
+	.byte	0xc
+	.byte	0xd
+	.long	0x13f
+	.uleb128 0x1
+	.long	0xfc
+	.byte	0
+	.uleb128 0x3
+	.long	.LASF24
+	.byte	0x5
+	.byte	0x6
+	.byte	0x6
+	.long	0x15b
+	.uleb128 0x1
+	.long	0x93
+	.uleb128 0x1
+	.long	0x93
+	.uleb128 0x1
+	.long	0x93
+	.byte	0
+	.uleb128 0x6
+	.long	.LASF26
+	.byte	0xf
+	.byte	0x13
+	.long	0xca
+	.long	0x170
+	.uleb128 0x1
+	.long	0xfc
+	.byte	0
+	.uleb128 0x3
+	.long	.LASF27
+	.byte	0x5
+	.byte	0xc
+	.byte	0x6
+	.long	0x187
+	.uleb128 0x1
+	.long	0x93
+	.uleb128 0x1
+	.long	0x87
+	.byte	0
+	.uleb128 0x3
+	.long	.LASF28
+	.byte	0x4
+	.byte	0x11
+	.byte	0xd
+	.long	0x19e
+	.uleb128 0x1
+	.long	0xfc
+	.uleb128 0x1
+	.long	0x93
+	.byte	0
+	.uleb128 0x3
+	.long	.LASF29
+	.byte	0x5
+	.byte	0xd
+	.byte	0x6
+	.long	0x1b5
+	.uleb128 0x1
+	.long	0x93
+	.uleb128 0x1
+	.long	0x87
+	.byte	0
+	.uleb128 0x6
+	.long	.LASF30
+	.byte	0xe
+	.byte	0xd
+	.long	0x87
+	.long	0x1ca
+	.uleb128 0x1
+	.long	0xfc
+	.byte	0
+	.uleb128 0xd
+	.long	.LASF34
+	.byte	0x4
+	.byte	0xb
+	.byte	0x11
+	.long	0xfc
+	.uleb128 0x3
+	.long	.LASF31
+	.byte	0x5
+	.byte	0x15
+	.byte	0x6
+	.long	0x1ed
+	.uleb128 0x1
+	.long	0x66
+	.uleb128 0x1
+	.long	0x1ed
+	.byte	0
+	.uleb128 0x4
+	.long	0x1f2
+	.uleb128 0xe
+	.uleb128 0xf
+	.long	.LASF35
+	.byte	0x1
+	.byte	0x10
+	.byte	0x1
+	.quad	.LFB1
+	.quad	.LFE1-.LFB1
+	.uleb128 0x1
+	.byte	0x9c
+	.long	0x22e
+	.uleb128 0x10
+	.long	.LASF32
+	.byte	0x1
+	.byte	0x12
+	.byte	0x9
+	.long	0x93
+	.uleb128 0x2
+	.byte	0x91
+	.sleb128 -24
+	.uleb128 0x11
+	.string	"e"
+	.byte	0x1
+	.byte	0x13
+	.byte	0xb
+	.long	0xfc
+	.uleb128 0x2
+	.byte	0x91
+	.sleb128 -32
+	.byte	0
+	.uleb128 0x12
+	.long	.LASF36
+	.byte	0x1
+	.byte	0xa
+	.byte	0x1
+	.quad	.LFB0
+	.quad	.LFE0-.LFB0
+	.uleb128 0x1
+	.byte	0x9c
+	.byte	0
+	.section	.debug_abbrev,"",@progbits
+.Ldebug_abbrev0:
+	.uleb128 0x1
+	.uleb128 0x5
+	.byte	0
+	.uleb128 0x49
+	.uleb128 0x13
+	.byte	0
+	.byte	0
+	.uleb128 0x2
+	.uleb128 0x24
+	.byte	0
+	.uleb128 0xb
+	.uleb128 0xb
+	.uleb128 0x3e
+	.uleb128 0xb
+	.uleb128 0x3
+	.uleb128 0xe
+	.byte	0
+	.byte	0
+	.uleb128 0x3
+	.uleb128 0x2e
+	.byte	0x1
+	.uleb128 0x3f
+	.uleb128 0x19
+	.uleb128 0x3
+	.uleb128 0xe
+	.uleb128 0x3a
+	.uleb128 0xb
+	.uleb128 0x3b
+	.uleb128 0xb
+	.uleb128 0x39
+	.uleb128 0xb
+	.uleb128 0x27
+	.uleb128 0x19
+	.uleb128 0x3c
+	.uleb128 0x19
+	.uleb128 0x1
+	.uleb128 0x13
+	.byte	0
+	.byte	0
+	.uleb128 0x4
+	.uleb128 0xf
+	.byte	0
+	.uleb128 0xb
+	.uleb128 0x21
+	.sleb128 8
+	.uleb128 0x49
+	.uleb128 0x13
+	.byte	0
+	.byte	0
+	.uleb128 0x5
+	.uleb128 0xd
+	.byte	0
+	.uleb128 0x3
+	.uleb128 0xe
+	.uleb128 0x3a
+	.uleb128 0xb
+	.uleb128 0x3b
+	.uleb128 0xb
+	.uleb128 0x39
+	.uleb128 0xb
+	.uleb128 0x49
+	.uleb128 0x13
+	.uleb128 0x38
+	.uleb128 0xb
+	.byte	0
+	.byte	0
+	.uleb128 0x6
+	.uleb128 0x2e
+	.byte	0x1
+	.uleb128 0x3f
+	.uleb128 0x19
+	.uleb128 0x3
+	.uleb128 0xe
+	.uleb128 0x3a
+	.uleb128 0x21
+	.sleb128 4
+	.uleb128 0x3b
+	.uleb128 0xb
+	.uleb128 0x39
+	.uleb128 0xb
+	.uleb128 0x27
+	.uleb128 0x19
+	.uleb128 0x49
+	.uleb128 0x13
+	.uleb128 0x3c
+	.uleb128 0x19
+	.uleb128 0x1
+	.uleb128 0x13
+	.byte	0
+	.byte	0
+	.uleb128 0x7
+	.uleb128 0x16
+	.byte	0
+	.uleb128 0x3
+	.uleb128 0xe
+	.uleb128 0x3a
+	.uleb128 0x21
+	.sleb128 2
+	.uleb128 0x3b
+	.uleb128 0x5
+	.uleb128 0x39
+	.uleb128 0xb
+	.uleb128 0x49
+	.uleb128 0x13
+	.byte	0
+	.byte	0
+	.uleb128 0x8
+	.uleb128 0x13
+	.byte	0x1
+	.uleb128 0x3
+	.uleb128 0xe
+	.uleb128 0xb
+	.uleb128 0x21
+	.sleb128 16
+	.uleb128 0x3a
+	.uleb128 0xb
+	.uleb128 0x3b
+	.uleb128 0xb
+	.uleb128 0x39
+	.uleb128 0x21
+	.sleb128 16
+	.uleb128 0x1
+	.uleb128 0x13
+	.byte	0
+	.byte	0
+	.uleb128 0x9
+	.uleb128 0x16
+	.byte	0
+	.uleb128 0x3
+	.uleb128 0xe
+	.uleb128 0x3a
+	.uleb128 0xb
+	.uleb128 0x3b
+	.uleb128 0xb
+	.uleb128 0x39
+	.uleb128 0xb
+	.uleb128 0x49
+	.uleb128 0x13
+	.byte	0
+	.byte	0
+	.uleb128 0xa
+	.uleb128 0x11
+	.byte	0x1
+	.uleb128 0x25
+	.uleb128 0xe
+	.uleb128 0x13
+	.uleb128 0xb
+	.uleb128 0x3
+	.uleb128 0x1f
+	.uleb128 0x1b
+	.uleb128 0x1f
+	.uleb128 0x11
+	.uleb128 0x1
+	.uleb128 0x12
+	.uleb128 0x7
+	.uleb128 0x10
+	.uleb128 0x17
+	.byte	0
+	.byte	0
+	.uleb128 0xb
+	.uleb128 0x24
+	.byte	0
+	.uleb128 0xb
+	.uleb128 0xb
+	.uleb128 0x3e
+	.uleb128 0xb
+	.uleb128 0x3
+	.uleb128 0x8
+	.byte	0
+	.byte	0
+	.uleb128 0xc
+	.uleb128 0x18
+	.byte	0
+	.byte	0
+	.byte	0
+	.uleb128 0xd
+	.uleb128 0x2e
+	.byte	0
+	.uleb128 0x3f
+	.uleb128 0x19
+	.uleb128 0x3
+	.uleb128 0xe
+	.uleb128 0x3a
+	.uleb128 0xb
+	.uleb128 0x3b
+	.uleb128 0xb
+	.uleb128 0x39
+	.uleb128 0xb
+	.uleb128 0x27
+	.uleb128 0x19
+	.uleb128 0x49
+	.uleb128 0x13
+	.uleb128 0x3c
+	.uleb128 0x19
+	.byte	0
+	.byte	0
+	.uleb128 0xe
+	.uleb128 0x15
+	.byte	0
+	.uleb128 0x27
+	.uleb128 0x19
+	.byte	0
+	.byte	0
+	.uleb128 0xf
+	.uleb128 0x2e
+	.byte	0x1
+	.uleb128 0x3
+	.uleb128 0xe
+	.uleb128 0x3a
+	.uleb128 0xb
+	.uleb128 0x3b
+	.uleb128 0xb
+	.uleb128 0x39
+	.uleb128 0xb
+	.uleb128 0x11
+	.uleb128 0x1
+	.uleb128 0x12
+	.uleb128 0x7
+	.uleb128 0x40
+	.uleb128 0x18
+	.uleb128 0x7c
+	.uleb128 0x19
+	.uleb128 0x1
+	.uleb128 0x13
+	.byte	0
+	.byte	0
+	.uleb128 0x10
+	.uleb128 0x34
+	.byte	0
+	.uleb128 0x3
+	.uleb128 0xe
+	.uleb128 0x3a
+	.uleb128 0xb
+	.uleb128 0x3b
+	.uleb128 0xb
+	.uleb128 0x39
+	.uleb128 0xb
+	.uleb128 0x49
+	.uleb128 0x13
+	.uleb128 0x2
+	.uleb128 0x18
+	.byte	0
+	.byte	0
+	.uleb128 0x11
+	.uleb128 0x34
+	.byte	0
+	.uleb128 0x3
+	.uleb128 0x8
+	.uleb128 0x3a
+	.uleb128 0xb
+	.uleb128 0x3b
+	.uleb128 0xb
+	.uleb128 0x39
+	.uleb128 0xb
+	.uleb128 0x49
+	.uleb128 0x13
+	.uleb128 0x2
+	.uleb128 0x18
+	.byte	0
+	.byte	0
+	.uleb128 0x12
+	.uleb128 0x2e
+	.byte	0
+	.uleb128 0x3f
+	.uleb128 0x19
+	.uleb128 0x3
+	.uleb128 0xe
+	.uleb128 0x3a
+	.uleb128 0xb
+	.uleb128 0x3b
+	.uleb128 0xb
+	.uleb128 0x39
+	.uleb128 0xb
+	.uleb128 0x11
+	.uleb128 0x1
+	.uleb128 0x12
+	.uleb128 0x7
+	.uleb128 0x40
+	.uleb128 0x18
+	.uleb128 0x7c
+	.uleb128 0x19
+	.byte	0
+	.byte	0
+	.byte	0
+	.section	.debug_aranges,"",@progbits
+	.long	0x2c
+	.value	0x2
+	.long	.Ldebug_info0
+	.byte	0x8
+	.byte	0
+	.value	0
+	.value	0
+	.quad	.Ltext0
+	.quad	.Letext0-.Ltext0
+	.quad	0
+	.quad	0
+	.section	.debug_line,"",@progbits
+.Ldebug_line0:
+	.section	.debug_str,"MS",@progbits,1
+.LASF18:
+	.string	"StringListCons"
+.LASF16:
+	.string	"rest"
+.LASF28:
+	.string	"errorSetAdd"
+.LASF3:
+	.string	"short unsigned int"
+.LASF15:
+	.string	"first"
+.LASF14:
+	.string	"String"
+.LASF21:
+	.string	"alloc"
+.LASF10:
+	.string	"float"
+.LASF2:
+	.string	"unsigned char"
+.LASF34:
+	.string	"errorSetNew"
+.LASF13:
+	.string	"Bool"
+.LASF5:
+	.string	"long unsigned int"
+.LASF20:
+	.string	"list"
+.LASF8:
+	.string	"long int"
+.LASF36:
+	.string	"errorSetTestSuite"
+.LASF23:
+	.string	"errorSetFree"
+.LASF31:
+	.string	"showTest"
+.LASF11:
+	.string	"double"
+.LASF7:
+	.string	"short int"
+.LASF17:
+	.string	"StringList"
+.LASF4:
+	.string	"unsigned int"
+.LASF9:
+	.string	"char"
+.LASF24:
+	.string	"testStringEqual"
+.LASF26:
+	.string	"errorSetErrors"
+.LASF12:
+	.string	"long long int"
+.LASF22:
+	.string	"ErrorSet"
+.LASF25:
+	.string	"errorSetPrintf"
+.LASF30:
+	.string	"errorSetHasErrors"
+.LASF33:
+	.string	"GNU C99 12.2.0 -mtune=generic -march=x86-64 -g -O0 -std=c99 -fasynchronous-unwind-tables"
+.LASF19:
+	.string	"errorSet"
+.LASF35:
+	.string	"testErrorSet1"
+.LASF32:
+	.string	"someRandomString"
+.LASF6:
+	.string	"signed char"
+.LASF29:
+	.string	"testFalse"
+.LASF27:
+	.string	"testTrue"
+	.section	.debug_line_str,"MS",@progbits,1
+.LASF1:
+	.string	"/repo/aldor/aldor/src"
+.LASF0:
+	.string	"test/test_errorset.c"
+	.ident	"GCC: (Debian 12.2.0-14+deb12u1) 12.2.0"
+	.section	.note.GNU-stack,"",@progbits
